@@ -18,7 +18,7 @@ CLAIMED = {
         note="No Emacs in the sandbox: chokan.el runs under tools/elisp_eval.py (validated on chokan-tests.el each run). "
              "General idempotence is stated (C19_idempotent_statement) but proved only for table rows and unmapped strings; "
              "it is checked differentially on all generated inputs. Axioms: propext, Classical.choice, Quot.sound.",
-        design="6/C19"),
+        design="5/C19"),
 }
 
 CLAIMED["C12"] = dict(
@@ -32,7 +32,7 @@ CLAIMED["C12"] = dict(
     note="Specification data authored in Lean (gojūon rows, euphonic set, core forms per class). Rust String/UTF-8 slicing "
          "modelled by utf8Len/sliceBytes; HashSet results compared as sets. C12_guess_accepts assumes the guesser's cut lies "
          "inside the shared kana ending. Axioms: propext, Classical.choice, Quot.sound.",
-    design="6/C12")
+    design="5/C12")
 
 CLAIMED["C10"] = dict(
     engine="lean+corr_dic",
@@ -44,7 +44,7 @@ CLAIMED["C10"] = dict(
          "hand-written PEG model is tied to the code by running both on printed, multi-speech, corrupt lines and files.",
     note="rust-peg semantics (ordered choice, greedy repetition, full-input match) are modelled, not verified; reader exercised "
          "on valid UTF-8 only; short writes of Write::write outside the model. Axioms: propext, Classical.choice, Quot.sound.",
-    design="6/C10")
+    design="5/C10")
 
 CLAIMED["C17"] = dict(
     engine="lean+corr_kana+elisp-evaluator",
@@ -59,7 +59,7 @@ CLAIMED["C17"] = dict(
          "not compared with the model. Concatenation-of-units and katakana/NFD equivalence are checked by the executable "
          "oracle on the implementation, not proved. 16 client-inverse witnesses are known findings (known_findings.json). "
          "Axioms: propext, Classical.choice, Quot.sound.",
-    design="6/C17")
+    design="5/C17")
 
 CLAIMED["C04"] = dict(
     engine="lean+corr_trie",
@@ -72,7 +72,7 @@ CLAIMED["C04"] = dict(
     note="PARTIAL so far: C04_statement (exact set for every history and oracle) is stated but its proof (invariant + "
          "relocation lemma) is not finished; relocating histories are covered at correspondence strength. serde/Clone modelled "
          "as identity; find_labels_of order canonicalised. Axioms: propext, Classical.choice, Quot.sound.",
-    design="6/C04 + Appendix A")
+    design="5/C04")
 
 KKC_NOTE = ("Tries abstracted as key sets (C04); dictionary well-formedness (word stored under its own reading) assumed; "
             "Score i32 modelled as Option Nat (sums < 2^31); std BinaryHeap replicated (tie order), validated by exact "
@@ -83,23 +83,29 @@ CLAIMED["C01"] = dict(
               "the model + differential run against kkc through the chokan_verif hooks with the tiling oracle on every candidate",
     text="The model reproduces the implementation's lattices, forward scores, edge scores and ordered candidate lists exactly on "
          "random dictionaries/inputs in 4 contexts; the tiling oracle is evaluated on every implementation candidate.",
-    note="PARTIAL so far: C01_statement is stated; proved: C01_text, C01_lookup_reading (readings equal the looked-up span). "
-         "The lattice-invariant proof is in progress. " + KKC_NOTE, design="6/C01")
+    note="C01 is proved at full strength on the model for every well-formed dictionary, non-empty input, context, counts, n and "
+         "fuel (lattice invariant through the five passes and the forward pass, chains through the A* loop, tiling of a chain). "
+         + KKC_NOTE, design="5/C01")
 CLAIMED["C02"] = dict(
     engine="lean+corr_kkc",
     technique="Lean 4 proof of the Viterbi step (bestScore = max over connectable predecessors) on the model + exhaustive path "
               "enumeration oracle on the implementation's own lattice and scores + exact list equality model vs implementation",
-    text="C02_forward_step_{ge,attained,none} are kernel-checked; the five conjuncts of the n-best property are checked against "
-         "exhaustive enumeration of every connectable path of the implementation's lattice for every generated case.",
-    note="PARTIAL so far: optimality of the A* loop (C02_statement) is not yet proved; it is decided per case by exhaustive "
-         "enumeration (lattices above 20000 paths are skipped and counted). " + KKC_NOTE, design="6/C02 + Appendix B")
+    text="C02_forward_step_{ge,attained,none}, C02_length_and_distinct, C02_is_connectable_path (every result is a connectable "
+         "bos-to-eos chain whose reported score is its path score) and C02_deterministic are kernel-checked; the five conjuncts of "
+         "the n-best property are checked against exhaustive enumeration of every connectable path of the implementation's "
+         "lattice for every generated case.",
+    note="PARTIAL: best-first order and optimality of the A* loop (C02_statement) are not proved; they are decided per case by "
+         "exhaustive enumeration (lattices above 20000 paths are skipped and counted). " + KKC_NOTE, design="5/C02")
 CLAIMED["C03"] = dict(
     engine="lean+corr_kkc+corr_trie",
     technique="Lean 4 lemmas on dictionary look-up soundness in the lattice model + differential run with real tries + oracle: "
               "every word part is a dictionary entry over its span, every matching head word / word after a prefix is offered",
-    text="Look-up soundness is proved on the model; soundness and completeness are checked on the implementation's untruncated "
-         "candidate lists for dictionaries whose tries are built by the real trie::Trie.",
-    note="PARTIAL so far: candidate-level completeness is checked by the oracle, not proved. " + KKC_NOTE, design="6/C03")
+    text="C03_sound (every converted word of every candidate is a dictionary entry under its own reading over exactly its stretch "
+         "of the input) and C03_head_word_is_node (lattice-level completeness at the head) are proved on the model; soundness and "
+         "completeness are checked on the implementation's untruncated candidate lists for dictionaries whose tries are built by "
+         "the real trie::Trie.",
+    note="PARTIAL: candidate-level completeness (head and after a prefix) is checked by the oracle, not proved (needs C02's "
+         "optimality). " + KKC_NOTE, design="5/C03")
 CLAIMED["C16"] = dict(
     engine="lean+corr_kkc",
     technique="Lean 4 proofs over the regenerated score/merge tables: proper and normal contexts build the same lattice and the "
@@ -108,7 +114,7 @@ CLAIMED["C16"] = dict(
     text="C16_proper_lattice, C16_proper_edge, C16_proper_node, C16_bonus_positive, C16_no_ancillary_particle_head are "
          "kernel-checked for all inputs and dictionaries; foreign/numeral superset claims are checked pairwise on the implementation.",
     note="The 'only suffix/counter-headed additions' clause is false at full strength (known finding D11, contrived dictionary); it "
-         "is checked by the oracle with that mechanism recorded in known_findings.json. " + KKC_NOTE, design="6/C16")
+         "is checked by the oracle with that mechanism recorded in known_findings.json. " + KKC_NOTE, design="5/C16")
 
 SRV_NOTE = ("jsonrpsee/tokio/uuid/std Mutex+mpsc are modelled, not verified: each RPC handler body and each background action is one "
             "atomic step; a handler panic closes the connection. Tied to the real binaries (release build, --cfg chokan_verif hooks "
@@ -121,7 +127,7 @@ CLAIMED["C05"] = dict(
          "C05_noun_entry_applies are kernel-checked; the real server is driven with malformed/odd requests, probed after each "
          "request (answer, no poisoned lock), restarted on its own user data and compared with the model throughout.",
     note="PARTIAL: 'answered in bounded time' is observed (5 s deadline), not proved; cubic lattice construction on very long inputs "
-         "is outside the model. " + SRV_NOTE, design="6/C05")
+         "is outside the model. " + SRV_NOTE, design="5/C05")
 CLAIMED["C06"] = dict(
     engine="lean+corr_kkc+corr_server",
     technique="Lean 4 theorems on confirm/updateWord/expire and on node scores (unknown session/candidate change nothing, single "
@@ -130,7 +136,7 @@ CLAIMED["C06"] = dict(
     text="Seven theorems kernel-checked on the model; re-ranking-only and score-rise are checked on the implementation's own "
          "edge/node scores for every generated case; exact count changes per confirmation are checked on the real server.",
     note="Untruncated-set equality with/without counts is checked by the oracle per case, not proved (needs C02's A* theorem). "
-         + SRV_NOTE, design="6/C06")
+         + SRV_NOTE, design="5/C06")
 CLAIMED["C07"] = dict(
     engine="lean+corr_server+corr_dic",
     technique="Lean 4 proofs that an applied word is found by look-up under its reading and that adding words never removes a "
@@ -139,7 +145,7 @@ CLAIMED["C07"] = dict(
     text="C07_added_word_found, C07_monotone, C07_guess_conjugable are kernel-checked; every conjugated form (computed by the real "
          "dic crate and by the model) of every registration must be offered for its reading by the real server within 3 s.",
     note="PARTIAL: 'within bounded time' is the updater getting scheduled (observed). Candidate-level visibility combines these "
-         "lemmas with C03/C04, which are themselves partial. " + SRV_NOTE, design="6/C07")
+         "lemmas with C03/C04, which are themselves partial. " + SRV_NOTE, design="5/C07")
 CLAIMED["C08"] = dict(
     engine="lean+corr_server",
     technique="Lean 4 proofs: user.dic round trip for storable user dictionaries (from C10_file), accepted registrations are "
@@ -149,7 +155,7 @@ CLAIMED["C08"] = dict(
          "restarted twice, and every probe answer, Verif.Dump and the bytes of user.dic are compared.",
     note="frequency.bin's postcard encoding is not modelled (compared through the real files/dumps). Compound learning records the "
          "entry in the user dictionary before the updater applies it (and again when it does), so InvDict is not proved across "
-         "`confirm`; no answer change was observed. " + SRV_NOTE, design="6/C08")
+         "`confirm`; no answer change was observed. " + SRV_NOTE, design="5/C08")
 CLAIMED["C09"] = dict(
     engine="lean+strace+fault-enumeration",
     technique="Lean 4 theorem by kernel evaluation over every crash point of the extracted file-operation sequence (boundaries "
@@ -159,14 +165,14 @@ CLAIMED["C09"] = dict(
          "saveOps regenerated from user_pref.rs; the traced system calls of a real save must equal saveOps; each crash directory "
          "is restored by the real binary.",
     note="Process death only (atomic rename, durable completed writes). File contents are abstract in the theorem "
-         "(old/new/torn/empty); byte-level cuts are exercised on the real files. " + SRV_NOTE, design="6/C09")
+         "(old/new/torn/empty); byte-level cuts are exercised on the real files. " + SRV_NOTE, design="5/C09")
 CLAIMED["C13"] = dict(
     engine="lean+corr_runtime",
     technique="Lean 4 theorem over the task inventory extracted from main.rs (no never-yielding loop on an async worker, hence "
               "serving for every worker count >= 1) + the real binary started with TOKIO_WORKER_THREADS = 1..16",
     text="C13, C13_occupancy, C13_duties are kernel-checked over the regenerated inventory; each worker count's observation "
          "(answers, registration applied, periodic save) is compared with the occupancy model's prediction.",
-    note="PARTIAL: tokio's scheduler and blocking pool are not modelled, only worker occupancy. " + SRV_NOTE, design="6/C13")
+    note="PARTIAL: tokio's scheduler and blocking pool are not modelled, only worker occupancy. " + SRV_NOTE, design="5/C13")
 CLAIMED["C14"] = dict(
     engine="lean+corr_concurrent",
     technique="Lean 4 proof that the extracted nested lock acquisitions respect one fixed order and that such an order excludes "
@@ -175,7 +181,7 @@ CLAIMED["C14"] = dict(
          "kernel-checked; concurrently, every request must complete and registrations must become visible atomically and "
          "monotonically, confirmations must not be lost.",
     note="PARTIAL: atomicity of each modelled step and the general linearizability clause are validated by the concurrent driver, "
-         "not proved. " + SRV_NOTE, design="6/C14")
+         "not proved. " + SRV_NOTE, design="5/C14")
 CLAIMED["C15"] = dict(
     engine="lean+corr_concurrent",
     technique="Lean 4 proofs on the state machine: the answering step stores the session, ids are fresh, other clients' "
@@ -183,7 +189,7 @@ CLAIMED["C15"] = dict(
               "1–32 concurrent clients on the real server",
     text="C15_session_recorded, C15_sids_fresh_convert, C15_session_survives_other_confirm, C15_register_once are kernel-checked; "
          "on the real server the learned count must equal the number of acknowledged confirmations in every configuration.",
-    note="PARTIAL: OS/tokio interleavings are sampled, not enumerated. " + SRV_NOTE, design="6/C15")
+    note="PARTIAL: OS/tokio interleavings are sampled, not enumerated. " + SRV_NOTE, design="5/C15")
 CLAIMED["C20"] = dict(
     engine="lean+corr_kkc+corr_server",
     technique="Lean 4 proofs about to_string_with_affix on chains as the search returns them (three affix patterns, no-affix case) "
@@ -191,7 +197,7 @@ CLAIMED["C20"] = dict(
     text="Seven theorems kernel-checked; for every generated candidate the extracted compound is compared with the expected one; "
          "confirming affixed candidates on the real server must make the compound convertible, saved and restart-proof.",
     note="The compound is recorded in the user dictionary twice (by the handler and by the updater) — harmless for the property. "
-         + SRV_NOTE, design="6/C20")
+         + SRV_NOTE, design="5/C20")
 
 CLAIMED["C11"] = dict(
     engine="lean+corr_builder",
@@ -203,7 +209,7 @@ CLAIMED["C11"] = dict(
          "with the model, queried for trie membership, conversion and single-kanji lookup.",
     note="postcard/serde modelled as identity (validated by loading the real image); the stable sort is modelled by insertion sort "
          "(permutation not yet proved); real trie = key set is C04. Axioms: propext, Classical.choice, Quot.sound.",
-    design="6/C11")
+    design="5/C11")
 CLAIMED["C18"] = dict(
     engine="lean+corr_skk",
     technique="Lean 4 model of the SKK-JISYO grammar and the noun/jinmei/tankan converters with proofs about what a successful parse "
@@ -214,7 +220,7 @@ CLAIMED["C18"] = dict(
          "line is re-read by the real dictionary reader, base verb notes are conjugated and their okuri row checked.",
     note="PARTIAL: skk-notes-converter (note_grammer.rs, converter.rs) is not modelled in Lean; totality/faithfulness of notes are "
          "decided by the executable oracle only. One known finding (D13). Axioms: propext, Classical.choice, Quot.sound.",
-    design="6/C18")
+    design="5/C18")
 
 NOT_YET = "machinery for this property is not built yet in this round (work in progress; see DESIGN.md section 9)"
 
